@@ -314,6 +314,9 @@ theorems, give every recorded finding an iff characterisation") added:
 | C11 | 43 | 60 | `workingFno_is_half_inverse_marginal_slope` (and its failure for erect images), `workingFno_pupil_mag_slip_iff`, `psfSpec_peak_100_any_mask`, `psfSpec_norm_by_traced_rays` (iff), `strehl_any_mask`, `fftshift_index_convention` (even and odd grids), `mtf_symmetric`, `freq_step_times_extent` |
 | C13 | 28 | 51 | `std_distance_selects_per_ray` / `_mixed_batch` (degenerate branch per ray), `traceLens_per_ray`, `batch_gather` / `batch_concat` / `batch_perm`, `nrLoop_count`, `nrCount_mono_left/right`, `nr_batches_sharing_slowest_agree`, `nr_not_batch_independent` (negation with witness), `result_independent_of_interleaving_*` |
 | C15 | 37 | 39 | `used_range_sampler_state`, `used_range_sampler_block` (samplers used before a sensitivity run) |
+| C12 | 48 | 73 | `dist_term_abs_differs_iff`, `distortion_inverted_image`, `fcTangential_own_z`, `fcSagittal_mirror_pair`, `centring_on_copy`, `opRmsAll_same_samples`, `fanPupil_symmetric`, `rayFan_reference_zero`; observation `fanPupil_one_point_not_chief` (confirmed on the real code: `RayFan(num_points=1)` samples P = -1 only and references that ray; `num_points = 1` is not generated by the harness, so no check raises it and it is not a listed finding) |
+| C16 | 52 | 79 | `clip_blocked_iff_radius`, `traceSurf_local_frame`, `traceSurf_decentre_covariant`, `global_test_differs_witness`, `obscuration_blocks_iff`, `interact_equal_media_coating`, `propagate_vacuum_wavelength`, `intensity_le_launch`, `dark_forever` |
+| C17 | 38 | 63 | `retarder_rotation_law`, `retarder_slip_is_minus_theta`, `retarder_sign_observable`, `halfWave_turns_H`, `quarterWave_45`, `fresnel_relative_index`, `rp_sign`, `polarized_zero_component`, `launch_intensity_one`, `unpolarized_is_mean_scaled` |
 | C19 | 28 | 98 | Python indexing of surfaces (`pyIndex_*`, `pickup_index_round_trip`, `pyIndex_normIdxSlip_ne`), ownership of the telecentric flag (`reload_keeps_optic_flag`, `fgFlag_slip_lost_iff`), `reload_equal_under_later_edits(_spec)`, `reload_then_update_code_partial`, one round-trip law per component pair and their negative results |
 
 A **referee pass** followed the first round: four review agents (fresh contexts, private copies, brief: is each theorem vacuous, true
